@@ -170,7 +170,7 @@ def run(ctx):
     fillers = [119] if ctx.quick else [0, 119, 255]
     firsts = [0, 1, 2, 3, 4, 255, 32] if ctx.quick else [0, 1, 2, 3, 4, 5, 9, 10, 32, 127, 128, 254, 255]     # 9, 10, 32: bytes that are white space when read as text
     lasts = [0, 1, 255, 32, 10] if ctx.quick else [0, 1, 2, 9, 10, 13, 32, 127, 128, 255]
-    ctx.rule = ('atoms = 7 address kinds x 20-byte payloads (first byte in %s, last byte in %s, filler %s) x entrypoints {none, default, a, 31 chars, set_default, 1st, do, root, set_delegate}; '
+    ctx.rule = ('atoms = 7 address kinds x 20-byte payloads (first byte in %s, last byte in %s, filler %s) x entrypoints {none, default, a, 31 chars, set_default, 1st, do, root, set_delegate, defaults}; '
                 'key hashes tz1-tz4, keys of 4 curves, signatures of 5 kinds, chain ids over the same payload classes; Leg A: TLC forges and reads back every atom with the '
                 'typed reader, the length-only reader and the reader of the neighbouring type; Leg B: every behaviour is replayed through the Michelson type classes '
                 '(readable -> optimized must be the model bytes; optimized -> readable must be the model value) and blind_unpack; non-trivial = every comparison' % (firsts, lasts, fillers))
@@ -194,7 +194,7 @@ def run(ctx):
         if ok and atom[0] in ('addr', 'kh') and atom[2][0] <= 3 and atom[2][-1] == 0 and reader != 'blind':
             ctx.sample({'atom': atom, 'reader': reader, 'bytes': bytes(byts).hex(), 'readable': concretize(atom)}, limit=4)
     n_atoms = len({a for a, _ in seen})
-    expect = len(fillers) * len(firsts) * len(lasts) * (7 * 9 + 4 + 4 + 5 + 1) + 4      # + the PACK look-alikes
+    expect = len(fillers) * len(firsts) * len(lasts) * (7 * 10 + 4 + 4 + 5 + 1) + 4      # + the PACK look-alikes
     if n_atoms != expect:
         raise MachineryError('TLC exported %d atoms, expected %d' % (n_atoms, expect))
     ctx.second_pass()
